@@ -85,9 +85,10 @@ def _no_clearing(c, fnp, f, effs):
         # never on a different field of self — otherwise other.X is dropped for reasons unrelated to X
         foreign = []
         for d, lab in cond_desc(b, g.conds(e["bb"])):
-            for m in re.finditer(r"arg1((?:\.[A-Za-z_][A-Za-z_0-9]*)+)", d):
-                fp = m.group(1).strip(".").split(".")
-                if fp[:len(tp)] != tp and tp[:len(fp)] != fp:
+            for m in re.finditer(r"arg1((?:\.[A-Za-z_][A-Za-z_0-9]*)*)", d):
+                fp = [x for x in m.group(1).strip(".").split(".") if x]
+                # a predicate over self as a whole (self.is_marked_for_blinding(), ...) is a test on other fields too
+                if not fp or (fp[:len(tp)] != tp and tp[:len(fp)] != fp):
                     foreign.append((d, lab))
         c.inst("R2.guard-same-field", ".".join(tp), not foreign,
                "the assignment to self.%s is guarded by a test on a different field of self: %s" % (".".join(tp), foreign[:2]), f.where(e.get("sp")), fnp)
